@@ -214,7 +214,7 @@ def _build_history(cc, hist):
     c = cc.CachePartition(eb)
     pairs = []
     for i, (res, dup) in enumerate(hist[1:]):
-        uri = pairs[0][0] if (dup and pairs) else f"file://slot{i}.bin"
+        uri = pairs[0][0] if (dup and pairs) else (f"file://slot{i}.bin", "cache://zażółć/€.bin", "x" * 24 + "é", "#3")[i % 4] if i < 4 else f"file://slot{i}.bin"
         data = payload(_len_for_residue(eb, i == 0, uri, res), i)
         if dup and pairs:
             try:
